@@ -103,12 +103,13 @@ theorem Good.newEntity (run : ProbeRunner) (p : Path) {w : World} (h : Good w) {
     (hreg : ∀ (c : Comp), c ∈ ids → c < w.kinds.length)
     (hnd : (rels.map (·.comp)).Nodup) (hin : ∀ (r : RelID), r ∈ rels → r.comp ∈ ids)
     (hrc : ∀ (r : RelID), r ∈ rels → w.isRelComp r.comp = true)
+    (htin : ∀ (r : RelID), r ∈ rels → r.target.id < w.pool.ents.length)
     (hfew : w.tables.length < maxU32) (hrows : w.entities.length + 1 < 2 ^ 32)
     (hnp : panicOf (opNewEntity run p ids vals rels w) = none) :
     Good (opNewEntity run p ids vals rels w).state := by
   obtain ⟨fl, ht, hl, hno⟩ := h
   obtain ⟨e, hr⟩ := ok_of_panicOf hnp
-  have post := opNewEntity_rel_spec run p ht hl hno hreg hnd hin hrc hfew hrows hr
+  have post := opNewEntity_rel_spec run p ht hl hno hreg hnd hin hrc htin hfew hrows hr
   exact ⟨fl.tail, post.tinv, by show (opNewEntity run p ids vals rels w).state.locks.isLocked = false
                                 rw [post.locks]; exact hl,
     fun evt => by rw [post.obs]; exact hno evt⟩
@@ -123,7 +124,8 @@ theorem Good.removeEntity (run : ProbeRunner) {w : World} (h : Good w) {g : Ent}
     simp only [World.index, List.getD_eq_getElem?_getD, List.getElem?_eq_getElem hlt,
       Option.getD_some]
   obtain ⟨h2, hnf⟩ := ht.link.indexed_live hent hidx
-  obtain ⟨w', hok, post⟩ := opRemoveEntity_rel_spec run ht hl hno h2 hnf ha hfew hrows
+  obtain ⟨w', hok, post⟩ := opRemoveEntity_rel_spec run ht hl hno h2 hnf ha
+    (by rw [← ht.link.lenEq]; exact hlt) hfew hrows
   rw [hok]
   exact ⟨rfl, g.id :: fl, post.tinv, by show w'.locks.isLocked = false
                                         rw [post.locks]; exact hl,
